@@ -198,7 +198,8 @@ class C07(PropertyCheck):
     nontrivial_rule = (
         "a scheme case is non-trivial when the linear object has >= 2 parameters and (for neighbour / split "
         "schemes) at least one neighbour pair or cross row touching another pixel; block cases when >= 2 "
-        "objects; distinct = distinct (scheme, coefficients, tables)")
+        "objects; history cases when at least two different scheme settings occur; distinct = distinct "
+        "(scheme, coefficients, tables, history)")
     exhaustive_note = {
         "quick": "every rectangular mesh shape 3..6 x 3..6 (real Mesh2DRectangular neighbour tables) under each of the 7 non-split schemes",
         "thorough": "every rectangular mesh shape 3..9 x 3..9 (real Mesh2DRectangular neighbour tables) under each of the 7 non-split schemes",
@@ -217,7 +218,10 @@ class C07(PropertyCheck):
     assumptions = [
         "theorems are over an exact ordered field; IEEE rounding is outside them (tolerances 1e-12 rational schemes, 1e-9 float)",
         "PD theorems for Constant/ConstantZeroth need a symmetric in-range neighbour table (true of every generated mesh; checked)",
-        "split-cross theorems need the pixel indices within one cross-point row to be distinct (checked per case)",
+        "split-cross theorems need well-formed cross-point tables (4 rows per pixel, rows non-empty and not full) with "
+        "non-negative, in-range, pairwise distinct pixel indices per row (true of Delaunay simplices; checked per case)",
+        "the model of LinearObj.regularization_matrix is a pure function of the object's current scheme; histories "
+        "(copy + re-assignment) check that the implementation has no memory either",
     ]
 
     # ------------------------------------------------------------------ generation helpers
@@ -377,7 +381,7 @@ class C07(PropertyCheck):
         # 5. pixel signals: real mappers (integer scale -> exact model) and direct util calls
         for _ in range(24 if quick else 200):
             frame = self._data_frame(rng, big=True)
-            scale = rng.choice([1, 1, 2, 3])
+            scale = rng.choice([1, 1, 2, 3, Fraction(1, 2), Fraction(3, 2)])
             if rng.random() < 0.5:
                 yield {"tag": "signals_rect", "kind": "signals", "source": "rect",
                        "mesh_shape": [rng.randint(3, 5), rng.randint(3, 5)], "signal_scale": q(scale), **frame}
@@ -389,20 +393,41 @@ class C07(PropertyCheck):
         hist_schemes = ["Constant", "Constant", "AdaptiveBrightness", "ConstantZeroth", "Zeroth",
                         "BrightnessZeroth", None, None]
         for _ in range(50 if quick else 400):
-            steps = []
-            for k in range(rng.randint(2, 4)):
-                name = rng.choice(hist_schemes)
-                if k > 0 and name == steps[-1]["scheme"] == None:
-                    name = "Constant"
+            # a small pool of scheme specifications per case: steps draw from it, so the same scheme
+            # *instance* recurs (on copies of the object, and on the second object)
+            pool = []
+            for name in rng.sample(hist_schemes[:6], 2) + [rng.choice(hist_schemes)]:
                 if name is None:
-                    steps.append({"scheme": None, "args": [], "signal_scale": None, "copy": rng.random() < 0.6})
+                    pool.append({"scheme": None, "args": [], "signal_scale": None})
                 else:
                     args, ss = self._scheme_args(rng, name)
-                    steps.append({"scheme": name, "args": args, "signal_scale": ss, "copy": rng.random() < 0.6})
+                    pool.append({"scheme": name, "args": args, "signal_scale": ss})
+            steps = []
+            for k in range(rng.randint(2, 5)):
+                sp = dict(rng.choice(pool))
+                if k > 0 and sp["scheme"] is None and steps[-1]["scheme"] is None:
+                    sp = dict(pool[0])
+                sp["copy"] = rng.random() < 0.6
+                steps.append(sp)
             c = {"kind": "history", "steps": steps, "extra": rng.randint(1, 2), "extra_first": rng.random() < 0.5}
             if rng.random() < 0.6:
                 n = rng.randint(2, 6)
                 c.update({"tag": "history_mock", "source": "mock", "mock": self._mock_obj(rng, n, True, False)})
+                if rng.random() < 0.5:
+                    # a second, different linear object: the same scheme *instances* are re-used across both
+                    c["tag"] = "history_mock_two_objects"
+                    c["mock2"] = self._mock_obj(rng, rng.randint(2, 6), True, False)
+                    for st in steps:
+                        st["obj"] = rng.randint(0, 1)
+                    # one object-dependent scheme instance is used on one object and later on the other
+                    name = rng.choice(["AdaptiveBrightness", "AdaptiveBrightness", "BrightnessZeroth", "Constant",
+                                       "ConstantZeroth"])
+                    args, ss = self._scheme_args(rng, name)
+                    a = rng.randint(0, 1)
+                    first = {"scheme": name, "args": args, "signal_scale": ss, "copy": False, "obj": a}
+                    second = {"scheme": name, "args": args, "signal_scale": ss, "copy": rng.random() < 0.5, "obj": 1 - a}
+                    pos = rng.randint(0, len(steps))
+                    steps[:] = [first] + steps[:pos] + [second] + steps[pos:]
             else:
                 c.update({"tag": "history_rect", "source": "rect",
                           "mesh_shape": [rng.randint(3, 4), rng.randint(3, 4)], **self._data_frame(rng)})
@@ -556,23 +581,34 @@ class C07(PropertyCheck):
         import copy
 
         if case["source"] == "mock":
-            cur = _mock_mapper(aa, case["mock"], regularization=None)
-            tables_for = lambda name, ss: dict(case["mock"])
+            mocks = [case["mock"]] + ([case["mock2"]] if case.get("mock2") else [])
+            curs = [_mock_mapper(aa, m, regularization=None) for m in mocks]
+            tables_for = lambda name, ss, k: dict(mocks[k])
             real_ds = None
         else:
-            cur = _real_mapper(aa, case)
-            base = cur
-            tables_for = lambda name, ss: _tables_of(base, name, ss or "1", False)
-            mask = cur.mapper_grids.mask
+            curs = [_real_mapper(aa, case)]
+            base = curs[0]
+            tables_for = lambda name, ss, k: _tables_of(base, name, ss or "1", False)
+            mask = base.mapper_grids.mask
             real_ds = aa.DatasetInterface(
                 data=aa.Array2D(values=np.array([fl(v) for v in case["adapt"]]), mask=mask),
                 noise_map=aa.Array2D(values=np.ones(len(case["adapt"])), mask=mask), convolver=None)
-        n = int(cur.params)
         out = []
+        made = {}  # scheme instances are re-used whenever the same (class, arguments) recurs
         for st in case["steps"]:
-            reg = None if st["scheme"] is None else _make_scheme(aa, st["scheme"], st["args"], st.get("signal_scale"))
+            key = (st["scheme"], tuple(st["args"]), st.get("signal_scale"))
+            if st["scheme"] is None:
+                reg = None
+            else:
+                if key not in made:
+                    made[key] = _make_scheme(aa, st["scheme"], st["args"], st.get("signal_scale"))
+                reg = made[key]
+            oi = st.get("obj", 0)
+            cur = curs[oi]
             if st.get("copy"):
                 cur = copy.copy(cur)
+                curs[oi] = cur
+            n = int(cur.params)
             cur.regularization = reg
             block = np.asarray(cur.regularization_matrix)
             extra = aa.m.MockLinearObj(parameters=case["extra"], regularization=None)
@@ -584,11 +620,12 @@ class C07(PropertyCheck):
                 rinv = aa.Inversion(dataset=real_ds, linear_obj_list=[cur],
                                     settings=aa.SettingsInversion(use_w_tilde=False))
                 o["real_inv"] = qmat(np.asarray(rinv.regularization_matrix))
+            o["params"] = n
             if reg is not None:
                 o["weights"] = qlist(np.asarray(reg.regularization_weights_from(linear_obj=cur)))
-                o["tables"] = tables_for(st["scheme"], st.get("signal_scale"))
+                o["tables"] = tables_for(st["scheme"], st.get("signal_scale"), oi)
             out.append(o)
-        return {"params": n, "steps": out, "inputs": {}}
+        return {"steps": out, "inputs": {}}
 
     def _impl_inversion(self, aa, case):
         objs = []
@@ -650,13 +687,15 @@ class C07(PropertyCheck):
                       "coefficient_zeroth": case["coefficient_zeroth"], "weights": case["weights"], "pixels": case["n"]})
             return [r]
         if kind == "signals":
+            if Fraction(case["signal_scale"]).denominator != 1:
+                return []  # `** signal_scale` is modelled for integer scales only; the oracle covers the rest
             return [{"op": "c07.util", "fn": "pixel_signals", "signal_scale": int(Fraction(case["signal_scale"])),
                      **obs["inputs"]}]
         if kind == "history":
             reqs = []
-            n = obs["params"]
             ex = {"params": case["extra"], "matrix": None}
             for st, so in zip(case["steps"], obs["steps"]):
+                n = so["params"]
                 if st["scheme"] is None:
                     mo = {"params": n, "matrix": None}
                 else:
@@ -1048,8 +1087,11 @@ class C07(PropertyCheck):
         mx = max(sig)
         if mx <= 0:
             raise Skip("no signal")
-        k = int(Fraction(case["signal_scale"]))
-        e = [(s / mx) ** k for s in sig]
+        sc = Fraction(case["signal_scale"])
+        if sc.denominator == 1:
+            e = [(s / mx) ** int(sc) for s in sig]
+        else:
+            e = [Fraction(float(s / mx) ** float(sc)) for s in sig]
         got = [Fraction(v) for v in obs["signals"]]
         for i in range(n):
             if abs(got[i] - e[i]) > Fraction(1, 10 ** 10):
@@ -1059,10 +1101,10 @@ class C07(PropertyCheck):
     def _oracle_history(self, case, obs):
         """after every step the block is the one of the CURRENT scheme (stated quadratic form / zero
         block), through every access route"""
-        n = obs["params"]
         e = case["extra"]
         for k, (st, so) in enumerate(zip(case["steps"], obs["steps"])):
-            where = f"step {k} ({st['scheme']}{' on a copy' if st.get('copy') else ''})"
+            n = so["params"]
+            where = f"step {k} ({st['scheme']}{' on a copy' if st.get('copy') else ''}, object {st.get('obj', 0)})"
             B = [[Fraction(v) for v in r] for r in so["block"]]
             if len(B) != n or any(len(r) != n for r in B):
                 return False, f"{where}: block is not {n} x {n}"
@@ -1187,9 +1229,10 @@ class C07(PropertyCheck):
             "weighted": ["C07.weighted_quad", "C07.weighted_symm", "C07.weighted_posdef"],
             "BrightnessZeroth": ["C07.brightness_zeroth_quad"],
             "brightness_zeroth": ["C07.brightness_zeroth_quad"],
-            "ConstantSplit": ["C07.split_quad", "C07.split_symm", "C07.split_posdef"],
-            "AdaptiveBrightnessSplit": ["C07.split_quad", "C07.split_symm", "C07.split_posdef"],
-            "reg_split_from": ["C07.split_quad"], "pixel_splitted": ["C07.split_quad", "C07.split_posdef"],
+            "ConstantSplit": ["C07.split_scheme_spec", "C07.split_quad", "C07.split_symm", "C07.split_posdef"],
+            "AdaptiveBrightnessSplit": ["C07.split_scheme_spec", "C07.split_quad", "C07.split_symm", "C07.split_posdef"],
+            "reg_split_from": ["C07.reg_split_from_rows", "C07.split_scheme_spec"],
+            "pixel_splitted": ["C07.split_quad", "C07.split_posdef"],
             "GaussianKernel": ["C07.kernel_cov_symm", "C07.kernel_reg_posdef_partial"],
             "ExponentialKernel": ["C07.kernel_cov_symm", "C07.kernel_reg_posdef_partial"],
         }
